@@ -240,8 +240,18 @@ class Spec:
                 else:
                     calls.append(lambda x=x, r_=rhs[off:off + n], sc=self._scale("der", i, n): ocp.set_der(x, r_, scale=sc))
                 off += n
-            for call in (reversed(calls) if self.der_order == "reversed" else calls):
-                call()            # the order of the set_der calls is not the order of the state declarations
+            if self.late.get("ode") and not self.fault:
+                # history (C13 seen from C01/C02): the model is first declared with ANOTHER right-hand side, queried, and
+                # only then given its final one -- re-assigning a derivative must reach the next transcription
+                old = E(self.ode.name + "_old", nx, self.ode.deps).on(self.atom)
+                off = 0
+                for i, (x, n) in enumerate(zip(S["x"], self.states)):
+                    (ocp.set_next(x, old[off:off + n]) if self.discrete else ocp.set_der(x, old[off:off + n], scale=self._scale("der", i, n)))
+                    off += n
+                self._redeclare_ode = list(reversed(calls)) if self.der_order == "reversed" else calls
+            else:
+                for call in (reversed(calls) if self.der_order == "reversed" else calls):
+                    call()            # the order of the set_der calls is not the order of the state declarations
         if self.alg is not None and self.algebraics:
             ocp.add_alg(E(self.alg.name, sum(self.algebraics), self.alg.deps).on(self.atom))
         # parameter values
@@ -261,6 +271,8 @@ class Spec:
                 self.pvals[key] = val
                 ocp.set_value(S["p_" + key], val)
         self._late_ops = []
+        if getattr(self, "_redeclare_ode", None):
+            self._late_ops.append(lambda: [call() for call in self._redeclare_ode])
         # constraints
         n_early_c = len(self.constraints) - min(len(self.constraints), self.late.get("constraints", 0))
         for ci, c in enumerate(self.constraints):
@@ -314,6 +326,9 @@ class Spec:
                 ocp.add_objective(ocp.at_tf(ca.vertcat(X0[0], X0[0])))
             elif kind_ == "set_value-on-state":
                 ocp.set_value(X0, 1)
+            elif kind_ == "set_value-on-variable":
+                vs = [q for k_ in ("", "control", "control+") for q in S[("v", k_)]]
+                ocp.set_value(vs[pos_ % len(vs)], 1)
             elif kind_ == "set_initial-on-parameter":
                 ps = [q for k_ in ("", "control", "control+") for q in S[("p", k_)]]
                 ocp.set_initial(ps[pos_ % len(ps)], 1)
